@@ -102,12 +102,24 @@ func encryptSegmented(key, P []byte, a, b int) []byte {
 	var X bytes.Buffer
 	w, err := NewWriter(key, &X)
 	V.Assert(err == nil, "NewWriter failed")
+	c := V.ChunkSize()
+	// streaming: after w bytes have been written at most one chunk is held back
+	heldBack := func(written int) bool {
+		full := (written+c-1)/c - 1
+		if full < 0 {
+			full = 0
+		}
+		return X.Len() >= full*(c+16)
+	}
 	n1, e1 := w.Write(P[:a])
 	V.Assert(e1 == nil && n1 == a, "first Write did not report the full count")
+	V.Assert(heldBack(a), "Write holds back more than one chunk")
 	n2, e2 := w.Write(P[a:b])
 	V.Assert(e2 == nil && n2 == b-a, "second Write did not report the full count")
+	V.Assert(heldBack(b), "Write holds back more than one chunk")
 	n3, e3 := w.Write(P[b:])
 	V.Assert(e3 == nil && n3 == len(P)-b, "third Write did not report the full count")
+	V.Assert(heldBack(len(P)), "Write holds back more than one chunk")
 	V.Assert(w.Close() == nil, "Close failed")
 	return X.Bytes()
 }
